@@ -253,6 +253,12 @@ def run(R):
                 fe_ = [e for e in a_["place"]["p"] if isinstance(e, dict) and "f" in e]
                 if fe_ and (fe_[-1].get("adt") or "").endswith("model::JoinClause") and fe_[-1].get("ty") == "bool":
                     conds.add("is_outer")
+        for key, val in fa.at(c.bb):
+            a_ = fa.atoms.get(key, {})
+            # the caller's permission may be a two-variant policy enum instead of a bool parameter
+            if a_.get("kind") == "discr" and a_.get("call") is None and 1 <= a_["place"]["l"] <= ejv.arg_count and \
+                    (a_.get("adt") or "").startswith("sqlgrep::") and not [e for e in a_["place"]["p"] if isinstance(e, dict)]:
+                conds.add("allow_outer")
         for call, val in fa.call_facts(c.bb):
             if short(call.name).endswith("JoinedTableData::get_joined_row") and val == "None":
                 conds.add("no-partner")
